@@ -591,6 +591,61 @@ def check_tuple_comparisons(sub):
                                   'select(%s)%s: %d rows expected, got %d; first difference %r' % (text, '' if params is None else ' with %r' % (params,), len(exp), len(got), sorted(set(exp) ^ set(got))[:3]))
     db.disconnect()
 
+# ---- date / datetime arithmetic with timedelta constants and parameters ---------------------------------------------
+# x.dt +/- timedelta(...), x.d +/- timedelta(days=...) with the timedelta written in the query text (an inline constant:
+# SQLite renders 'N days', 'M seconds' modifiers) and passed as an external variable (a bound parameter), as a
+# projection and inside a comparison; the reference is Python's own arithmetic. Whole seconds only.
+def check_timedelta_arithmetic(sub):
+    import itertools
+    from datetime import date, datetime, timedelta
+    from pony import orm
+    db = orm.Database()
+    class T(db.Entity):
+        id = orm.PrimaryKey(int)
+        dt = orm.Required(datetime)
+        d = orm.Required(date)
+    db.bind('sqlite', ':memory:'); db.generate_mapping(create_tables=True)
+    rows = [(1, datetime(2020, 3, 1, 0, 0, 0), date(2020, 3, 1)), (2, datetime(2019, 12, 31, 23, 59, 59), date(2019, 12, 31)),
+            (3, datetime(2021, 6, 15, 12, 30, 0), date(2024, 2, 29))]
+    with orm.db_session:
+        for i, dt, d in rows: T(id=i, dt=dt, d=d)
+    deltas = [timedelta(days=dd, seconds=ss) for dd in (-2, -1, 0, 1, 2, 500) for ss in (0, 20, 9000, 86399)]
+    deltas = [td for td in deltas if td != timedelta(0)]
+    def text_of(td): return 'timedelta(days=%d, seconds=%d)' % (td.days, td.seconds)
+    g0 = {'T': T, 'timedelta': timedelta, 'datetime': datetime, 'date': date}
+    with orm.db_session:
+        for td in deltas:
+            for attr, vals in (('dt', {i: dt for i, dt, d in rows}), ('d', {i: d for i, dt, d in rows})):
+                if attr == 'd' and td.seconds: continue                 # date +/- a sub-day interval: outside the enumerated space
+                for op, f in (('+', lambda a, b: a + b), ('-', lambda a, b: a - b)):
+                    for kind in ('const', 'param'):
+                        rhs = text_of(td) if kind == 'const' else 'k'
+                        g = dict(g0, k=td)
+                        exp = {i: f(v, td) for i, v in vals.items()}
+                        for form in ('proj', 'cmp'):
+                            if form == 'proj': text = '(x.id, x.%s %s %s) for x in T' % (attr, op, rhs)
+                            else:
+                                pivot = exp[2]
+                                text = 'x.id for x in T if x.%s %s %s <= pivot' % (attr, op, rhs); g['pivot'] = pivot
+                            sub.count('queries'); sub.count('timedelta_queries')
+                            try: got = list(orm.select(text, g, {}))
+                            except Exception as e:
+                                sub.count('refused'); sub.count('timedelta_refused'); continue
+                            sub.count('answered'); sub.count('row_comparisons', len(rows))
+                            if form == 'proj':
+                                gd = {i: (v.date() if attr == 'd' and isinstance(v, datetime) else v) for i, v in got}
+                                ok = gd == exp
+                            else:
+                                ok = sorted(got) == sorted(i for i, v in exp.items() if v <= pivot)
+                            if ok: sub.count('agreed'); continue
+                            sub.count('disagreed')
+                            neg = 'negative' if td < timedelta(0) else 'positive'
+                            shape = 'whole days' if not td.seconds else ('sub-day' if td.days in (0, -1) and abs(td.total_seconds()) < 86400 else 'days and seconds')
+                            sub.violation('%s %s timedelta %s (%s, %s, %s): wrong value' % ('datetime' if attr == 'dt' else 'date', op, kind, neg, shape, form),
+                                          dict(timedelta_query=text, k=repr(td)),
+                                          'select(%s)%s: expected %r, got %r' % (text, '' if kind == 'const' else ' with k=%r' % td, sorted(exp.items())[:3] if form == 'proj' else 'rows with value <= %r' % pivot, got[:3]))
+    db.disconnect()
+
 def run(ctx):
     t0 = time.time()
     _EXPRS[1] = qx.enumerate_exprs(P, 1)
@@ -619,6 +674,7 @@ def run(ctx):
     sub = core.Sub()
     check_extra(sub, state(), hashes)
     check_tuple_comparisons(sub)
+    check_timedelta_arithmetic(sub)
     core.absorb(ctx, sub.dump())
     c = ctx.counters
     queries, answered, refused = c.get('queries', 0), c.get('answered', 0), c.get('refused', 0)
@@ -643,6 +699,11 @@ def run(ctx):
                      'result is decided and non-empty' % ('' if ctx.quick else '; depth 2 pruned operand lists'))
 
 def replay(ctx, case):
+    if 'timedelta_query' in case:
+        sub = core.Sub(); check_timedelta_arithmetic(sub)
+        bad = [e for e in sub.found.values() if e['case'].get('timedelta_query') == case['timedelta_query']]
+        for e in bad: print(e['message'])
+        return not bad
     if 'tuple_comparison' in case:
         sub = core.Sub(); check_tuple_comparisons(sub)
         bad = [e for e in sub.found.values() if e['case'].get('tuple_comparison') == case['tuple_comparison']]
